@@ -193,6 +193,14 @@ def shard_vectors(P, ver, prefix, all_values, n_random, seed):
         check_vector_after(P, ver, s, [rng.choice(names)])
         if rng.random() < 0.3:
             check_vector_after(P, ver, s, [rng.choice(names) for _ in range(rng.randint(2, 4))])
+        # inputs written group by group, with the groups in another order than the official one
+        # (all permutations when every optional metric is defined, else two at random)
+        for ks in V.block_orderings(ver, m, rng, None if len(sh) == len(T.OPTIONAL[ver]) else 2):
+            s2 = V.spell(prefix, m, ks)
+            if s2 != s:
+                P.dist((ver, s2))
+                P.stratum("v%s:input-in-group-blocks" % ver)
+                check_vector(P, ver, s2)
         if P.evaluations % 1501 == 1:
             P.sample({"ver": ver, "vector": s})
 
@@ -216,7 +224,7 @@ def shard_dialogue(P, vtag, all_metrics, n, seed):
     for _ in range(n):
         targets.append({k: rng.choice(T.VALUES[ver][k]) for k in T.ORDER[ver]})
     for tgt in targets:
-        answers = DLG.script_for(order, tgt, rng, noise=0.2, case=rng.choice(("asis", "lower", "upper")))
+        answers = DLG.script_for(order, tgt, rng, noise=0.2, case=rng.choice(("asis", "lower", "upper")), ver=ver)
         P.dist((vtag, all_metrics, tuple(answers)))
         P.stratum("dialogue:%s:%s" % (vtag, "all" if all_metrics else "mandatory"))
         check_dialogue(P, vtag, all_metrics, answers)
